@@ -1298,8 +1298,9 @@ def c14_semantic_mutations(run):
             if t["type"] in ("prodId", "regDefId") and nxt != ":":
                 if t["type"] == "prodId" and lit in (b"INVALID",):
                     continue
-                new = b"Zzundefined" if t["type"] == "prodId" else b"_zzundefined"
-                jobs.append((g, "reference %s at offset %d renamed to the undefined %s" % (t["lit"], o, new.decode()), src[:o] + new + src[o + len(lit):]))
+                news = [b"Zzundefined", "\u00c9zundefined".encode()] if t["type"] == "prodId" else [b"_zzundefined"]
+                for new in news:
+                    jobs.append((g, "reference %s at offset %d renamed to the undefined %s" % (t["lit"], o, new.decode()), src[:o] + new + src[o + len(lit):]))
             if t["type"] in ("tokId", "regDefId", "ignoredTokId") and nxt == ":":
                 # the definition runs up to the next ';' token
                 j = i + 1
